@@ -229,6 +229,46 @@ func VerifC16Batch() {
 	verifrt.Reach("c16.batch.end")
 }
 
+// VerifC16AbortedEncodes: 1..4 encodes in a row are abandoned after a transport error at the
+// same write (any of the first 12 writes, i.e. at any nesting depth of the batch), then a
+// complete encode goes through the same protocol object: it must produce the bytes a fresh
+// protocol object produces, and they must decode.  Whatever an abandoned message leaves behind
+// in the protocol object must not add up.
+func VerifC16AbortedEncodes() {
+	binary := verifrt.Choose("binary", 2) == 1
+	f := vFactory(binary)
+	var b MetricBatch
+	m := Metric{Name: verifrt.String("name", 1), Timestamp: int64(verifrt.Int32("ts"))}
+	m.Value.MetricType = MetricType_TIMER
+	m.Value.Timer = int64(verifrt.Int16("timer"))
+	m.Tags = []MetricTag{{Name: "k", Value: verifrt.String("tv", 1)}}
+	b.Metrics = []Metric{m}
+	b.CommonTags = []MetricTag{{Name: "service", Value: verifrt.String("svc", 1)}}
+	buf := thrift.NewTMemoryBuffer()
+	enc := vEncode(buf, f.GetProtocol(buf), &b)
+	failAt := 1 + verifrt.Choose("fail-at", 12)
+	ft := &failingTransport{TMemoryBuffer: thrift.NewTMemoryBuffer()}
+	fproto := f.GetProtocol(ft)
+	aborts := 1 + verifrt.Choose("aborted-encodes", 4)
+	for i := 0; i < aborts; i++ {
+		ft.writes, ft.failAt = 0, failAt
+		ft.TMemoryBuffer.Reset()
+		_ = b.Write(fproto)
+	}
+	ft.failAt = 0
+	ft.TMemoryBuffer.Reset()
+	err := b.Write(fproto)
+	verifrt.Assert("c16.aborted.encode-after-aborts-no-error", err == nil)
+	verifrt.Assert("c16.aborted.encode-after-aborts-same-bytes", verifrt.EqBytes(ft.TMemoryBuffer.Bytes(), enc))
+	var back MetricBatch
+	err = back.Read(f.GetProtocol(ft.TMemoryBuffer))
+	verifrt.Assert("c16.aborted.decodes", err == nil && len(back.Metrics) == 1)
+	if err == nil && len(back.Metrics) == 1 {
+		verifrt.Assert("c16.aborted.roundtrip", eqMetric(&b.Metrics[0], &back.Metrics[0]))
+	}
+	verifrt.Reach("c16.aborted.end")
+}
+
 // VerifC16StringLengths: encoded length of a metric whose name (resp. tag value) has a
 // symbolic length 0..300: the encoder's output (abstract buffer) and the calculator must both
 // equal the reference size = framing of the empty string + length prefix growth + the bytes.
